@@ -226,8 +226,63 @@ func c18Concurrent(c c18Case) *Violation {
 	return first
 }
 
+// c18Periodic: a long periodic sequence (Byte leading letters of Seq's period... then the period repeated up to Len
+// letters) matched against Query: the reported segments match, ascend, do not overlap, and no match fits into any gap
+// between them (the completeness clause, checked by brute force inside the gaps only).
+func c18Periodic(c c18Case) *Violation {
+	period := []byte(c.Seq)
+	in := make([]byte, 0, c.Len)
+	for i := 0; i < c.Byte; i++ {
+		in = append(in, 'c')
+	}
+	for len(in) < c.Len {
+		in = append(in, period...)
+	}
+	in = in[:c.Len]
+	q := []byte(c.Query)
+	var got []gts.Segment
+	if pi := guard(func() { got = gts.Match(gts.New(nil, nil, append([]byte(nil), in...)), gts.New(nil, nil, q)) }); pi != nil {
+		return panicViolation(fmt.Sprintf("Match of %d letters of period %q with %q", c.Len, c.Seq, c.Query), pi)
+	}
+	what := fmt.Sprintf("Match(%d x c + period %q up to %d letters, %q)", c.Byte, c.Seq, c.Len, c.Query)
+	hit := func(i int) bool {
+		if i < 0 || i+len(q) > len(in) {
+			return false
+		}
+		for k := range q {
+			if !refMatchByte(q[k], in[i+k]) {
+				return false
+			}
+		}
+		return true
+	}
+	prevEnd := 0
+	for k, sg := range got {
+		if sg[1]-sg[0] != len(q) || !hit(sg[0]) {
+			return viol("match", "%s: segment %d = %v does not match", what, k, sg)
+		}
+		if sg[0] < prevEnd {
+			return viol("match-overlap", "%s: segment %d = %v overlaps or precedes the segment reported before it (which ends at %d)", what, k, sg, prevEnd)
+		}
+		for i := prevEnd; i+len(q) <= sg[0]; i++ {
+			if hit(i) {
+				return viol("match-complete", "%s: a match at %d fits between the reported segments %d and %d", what, i, k-1, k)
+			}
+		}
+		prevEnd = sg[1]
+	}
+	for i := prevEnd; i+len(q) <= len(in); i++ {
+		if hit(i) {
+			return viol("match-complete", "%s: a match at %d behind the last reported segment (%d segments)", what, i, len(got))
+		}
+	}
+	return nil
+}
+
 func c18Check(c c18Case) *Violation {
 	switch c.Mode {
+	case "periodic":
+		return c18Periodic(c)
 	case "concurrent":
 		return c18Concurrent(c)
 	case "long":
@@ -530,6 +585,19 @@ func TestC18(t *testing.T) {
 		}
 	}
 	e2b.done(true)
+	// long periodic sequences (homopolymers, tandem repeats, runs of n) just beyond 2^16, 2^20 and 2^21 letters, in
+	// every phase of the period against the boundary
+	eper := enumPart(t, c18Prop, st, "long-periodic")
+	for _, size := range []int{1<<16 + 100, 1<<20 + 100, pick(1<<20+1000, 1<<21+100)} {
+		for _, pq := range [][2]string{{"a", "aa"}, {"a", "aaa"}, {"n", "nn"}, {"ac", "acac"}, {"acg", "nnnn"}, {"a", "wwwww"}} {
+			for lead := 0; lead < len(pq[1])+1; lead++ {
+				if !eper.try(c18Case{Mode: "periodic", Seq: pq[0], Query: pq[1], Len: size, Byte: lead}) {
+					return
+				}
+			}
+		}
+	}
+	eper.done(false)
 	// overlapping calls: eight goroutines with different queries on copies of one sequence
 	ecc := enumPart(t, c18Prop, st, "concurrent-calls")
 	for k, qs := range []string{"gcatgc,atg,nnn,ryk,acgt,ttga,cat,gc", "a,c,g,t,n,r,y,k", "acg,acgt,acgta,cgta,gtac,tacg,ac,gt", "aaaa,aaa,aa,a,tttt,ttt,tt,t"} {
